@@ -124,6 +124,22 @@ Theorem C04_noflush_refuted :
 Proof. exact noflush_refuted. Qed.
 Print Assumptions C04_noflush_refuted.
 
+(* bystanders: the harness records in a 4th component of the case whatever else happened in the
+   process around the judged loggers (other loggers hitting failing sinks in Write or Sync, failing
+   marshalers, reflection failures, panicking Stringers, a failing branch hidden in the judged tee).
+   The requirement on the judged sinks does not depend on that history, and neither does the model:
+   for ANY such history every judged sink must hold -- and in the model does hold -- a merge of the
+   lines submitted to it *)
+Theorem C04_bystanders :
+  forall (cfg threads hints : sx) (extra : list sx),
+    (forall o, spec (SL (cfg :: threads :: hints :: extra)) o = spec (SL [cfg; threads; hints]) o) /\
+    model (SL (cfg :: threads :: hints :: extra)) = model (SL [cfg; threads; hints]) /\
+    wf (SL (cfg :: threads :: hints :: extra)) = wf (SL [cfg; threads; hints]) /\
+    (wf (SL [cfg; threads; hints]) = true ->
+     spec (SL (cfg :: threads :: hints :: extra)) (model (SL (cfg :: threads :: hints :: extra))) = true).
+Proof. exact bystanders_thm. Qed.
+Print Assumptions C04_bystanders.
+
 (* the driver's oracle accepts what the model computes, for every well-formed case *)
 Theorem C04_wire : forall i, wf i = true -> spec i (model i) = true.
 Proof. exact spec_model. Qed.
